@@ -6,23 +6,36 @@ source is parsed (ast) and a small inter-procedural taint analysis is run:
 
   sources   a parameter is HOST when the LIVE `value_type.check` accepts a plain canary object
             (or accepts it only once it carries yaqlization settings: `gated` origin); it is
-            CONT (a yaql-typed container / lambda whose elements / results may be hosts) when it
-            rejects the canary but accepts a list, tuple, dict or iterator holding one, or is a
-            lazy (lambda-like) parameter; hidden (injected) parameters are clean
-  flow      assignments, for-targets, comprehension targets, calls into functions defined in the
-            yaql package (followed, depth-limited), a table of protocol-only builtins; anything
-            else called with a tainted argument is itself reported (fail-closed)
+            CONT (a yaql-typed container whose elements may be hosts) when it rejects the canary
+            but accepts a list, tuple, dict, set or iterator holding one; `scalar` when it accepts
+            only strings / numbers; lazy parameters (lambdas, expressions, mapping rules) and
+            hidden (injected Context / Engine / Delegate) parameters are `lazy`: their
+            attributes / items are yaql's own objects, calling them yields a value
+  flow      assignments, for-targets, comprehension targets, tuple shapes, locally built
+            containers (with the taint of their elements), isinstance / utils.is_* guards
+            (narrow a value to builtin / yaql data inside the guarded block), nested functions,
+            lambdas and classes, calls into functions and classes of the yaql package (followed,
+            depth-limited, per payload), a table of protocol-only builtins / stdlib modules;
+            anything else called with a tainted argument is itself a row (fail-closed)
   sinks     on a HOST value: attribute access, getattr/hasattr/setattr/delattr/vars/dir,
-            subscript, call; on HOST or CONT arguments: `.format(` / `.format_map(` with a
-            non-constant or field-navigating template, `%` with a possibly-string left operand,
-            f-strings; any use of operator.attrgetter/itemgetter/methodcaller; sources that
-            cannot be read or constructs that cannot be interpreted (scan_failed)
+            subscript (load, store, delete), call; on HOST or CONT arguments: `.format(` /
+            `.format_map(` with a non-constant or field-navigating template, `%` with a
+            possibly-string left operand, f-strings; any use of operator.attrgetter /
+            itemgetter / methodcaller; unknown callees; sources that cannot be read or constructs
+            that cannot be interpreted (scan_failed)
+  assumed   a value returned by yaql's own machinery (a Delegate / Context call such as
+            to_list(collection) or context(name, engine, receiver)) is yaql data: iterating,
+            subscripting or calling it is not counted (attribute access on it is).  The canary
+            sweep of harness/c07_sweep.py exercises these paths dynamically.
 
 Every sink is a row.  For rows in the Yaqlized-typed overloads the scanner also emits whether
-the operation is dominated by a `_validate_name(<original name>, settings)` call and uses only
-that name.  The module is trusted (it decides what the finite theorem is about); it is
-deliberately conservative: an unknown situation produces a row, and rows outside the three
-gated overloads make the obligation C07_only_gated_payloads_touch_hosts fail."""
+the operation is dominated (same top-level statement list, earlier statement) by a
+`_validate_name(<unmodified parameter value>, settings)` call and takes its member name from
+that value (through _remap_name / constant subscripts) only; operations on a value that was
+itself obtained through such a validated access are `subject_member`.  The module is trusted
+(it decides what the finite theorem is about); it is deliberately conservative: an unknown
+situation produces a row, and rows outside the gated overloads make the obligation
+C07_only_gated_payloads_touch_hosts fail."""
 import ast
 import inspect
 import string
